@@ -327,6 +327,9 @@ func scenarios(thorough bool) []scenario {
 			scenario{Name: "L6-three-subgraph-one-cancels", Reqs: []reqSpec{{Name: "A", Op: "q1", Vars: "v1", Hdr: "h1", SubFetch: "F1", NoDedup: true, Cancel: true}, {Name: "B", Op: "q2", Vars: "v1", Hdr: "h1", SubFetch: "F1", NoDedup: true}, {Name: "C", Op: "q3", Vars: "v1", Hdr: "h1", SubFetch: "F1", NoDedup: true}}},
 		)
 	}
+	// a client that goes away: its context is cancelled AND its writer is broken, so the leader can end
+	// with an error that is not a context error while its context is already done
+	sc = append(sc, scenario{Name: "I13-leader-disconnects-context-cancelled-and-writer-broken", Reqs: []reqSpec{{Name: "A", Op: "q1", Vars: "v1", Hdr: "h1", Cancel: true, BadWrite: true}, a("B", "q1", "v1", "h1")}})
 	return sc
 }
 
